@@ -18,11 +18,11 @@ ObsOK(o) ==
   /\ \A h \in 1..Len(handles) :
         /\ o.h[h].del = (IF FirstFor(h) THEN delivered[handles[h]] ELSE <<>>)
         /\ o.h[h].closed = (FirstFor(h) /\ seenClosed[handles[h]])
-  /\ o.cret = (clS = "ret") /\ o.lc = lclosed
+  /\ o.cret = (clS = "ret" \/ c2S = "ret") /\ o.lc = lclosed      \* "a Close call has returned"
 \* the driver is between two calls: not inside RemoveConnByUfrag; if it waited, the mux is idle and looks as logged
 Ready == /\ l <= Len(Tr) /\ rmS = "idle"
          /\ J.w => Quiet /\ ~cc /\ ObsOK(J.pre)
-Ev(e) == Ready /\ J.ev = e /\ l' = l + 1 /\ UNCHANGED races
+Ev(e) == Ready /\ J.ev = e /\ l' = l + 1 /\ UNCHANGED <<races, c2S>>
 TInit == Init /\ l = 1 /\ cc = FALSE
 TReset == /\ l <= Len(Tr) /\ J.ev = "Reset" /\ l' = l + 1
           /\ beh' = [c \in Clients |-> IF c <= Len(J.beh) THEN J.beh[c] ELSE "silent"]
@@ -33,24 +33,26 @@ TReset == /\ l <= Len(Tr) /\ J.ev = "Reset" /\ l' = l + 1
           /\ pcs' = [i \in Ids |-> NoPc] /\ npc' = 0 /\ map' = [u \in Ufrags |-> 0]
           /\ mu' = "free" /\ mclosed' = FALSE /\ lclosed' = FALSE /\ acc' = "run" /\ wg' = 1
           /\ wat' = [i \in Ids |-> "none"] /\ tim' = [i \in Ids |-> "none"] /\ closers' = [s \in Slots |-> Idle]
-          /\ rmS' = "idle" /\ clS' = "idle" /\ clTodo' = {}
+          /\ rmS' = "idle" /\ clS' = "idle" /\ clTodo' = {} /\ c2S' = "idle"
           /\ handles' = <<>> /\ delivered' = [i \in Ids |-> <<>>] /\ seenClosed' = [i \in Ids |-> FALSE]
           /\ stale' = FALSE /\ gets' = 0 /\ rms' = 0 /\ adv' = 0 /\ reps' = 0 /\ races' = 0 /\ cc' = FALSE
 TNext == \/ Internal /\ UNCHANGED <<l, races, cc>>
-         \/ cc /\ CloseLock /\ cc' = FALSE /\ UNCHANGED <<l, races>>
+         \/ cc /\ CloseLock /\ cc' = FALSE /\ UNCHANGED <<l, races, c2S>>
          \/ TReset
          \/ Ev("Dial") /\ UNCHANGED cc /\ Dial(J.c)
          \/ Ev("Send") /\ UNCHANGED cc /\ ClientSend(J.c) /\ sent'[J.c] = J.k
          \/ Ev("CClose") /\ UNCHANGED cc /\ ClientClose(J.c)
          \/ Ev("Get") /\ UNCHANGED cc /\ Get(J.u) /\ (J.ok <=> ~mclosed)
          \/ Ev("Remove") /\ UNCHANGED cc /\ RemoveBegin(J.u)
-         \/ Ev("Close") /\ clS = "idle" /\ ~cc /\ cc' = TRUE /\ UNCHANGED vars
+         \/ Ev("Close") /\ clS = "idle" /\ ~cc /\ cc' = TRUE /\ UNCHANGED mvars
+         \* a second Close call while the first is under way (or has not reached the lock yet)
+         \/ Ready /\ J.ev = "Close" /\ (cc \/ clS # "idle") /\ c2S = "idle" /\ c2S' = "want" /\ l' = l + 1 /\ UNCHANGED <<mvars, races, cc>>
          \/ Ev("Advance") /\ UNCHANGED cc /\ Advance
          \/ Ev("Reply") /\ UNCHANGED cc /\ Reply(handles[J.h], J.c) /\ reps' = J.r
                         /\ (J.ok <=> (J.c \in pcs[handles[J.h]].conns /\ ~sclosed[J.c] /\ cst[J.c] = "open"))
-         \/ Ev("Skipped") /\ UNCHANGED cc /\ UNCHANGED vars
-         \/ Ev("HAbort") /\ UNCHANGED cc /\ UNCHANGED vars     \* deadline + Close on one of several handles: private to that handle
-         \/ Ev("End") /\ UNCHANGED cc /\ UNCHANGED vars
+         \/ Ev("Skipped") /\ UNCHANGED cc /\ UNCHANGED mvars
+         \/ Ev("HAbort") /\ UNCHANGED cc /\ UNCHANGED mvars     \* deadline + Close on one of several handles: private to that handle
+         \/ Ev("End") /\ UNCHANGED cc /\ UNCHANGED mvars
          \/ l <= Len(Tr) /\ J.ev = "Exit" /\ l' = l + 1 /\ UNCHANGED <<vars, cc>>
 TSpec == TInit /\ [][TNext]_tv
 \* high-water mark of the trace position (one worker)
